@@ -1,21 +1,31 @@
 ----------------------------- MODULE Trace_Conc -----------------------------
-(* Reset | Seq fn x hash (sequential reference) | End t fn x round rep hash | Done *)
-(* Every concurrent result for (fn, x) must equal the sequential reference.        *)
+(* Reset | Fresh fn x hash (reference: the call on a thread of its own, with no history)  *)
+(*       | Seq fn x hash (the call on the main thread, after all the calls before it)     *)
+(*       | End t fn x round rep hash (a call in a history thread or a concurrent round)   *)
+(*       | Done                                                                           *)
+(* Concurrency!Deterministic on real runs: every result for (fn, x) - whatever ran before *)
+(* it in its thread, whatever ran beside it - equals the reference.  (Traces without      *)
+(* Fresh events: the first Seq event of a pair is the reference.)                         *)
 EXTENDS Naturals, Sequences, TLC, Json, IOUtils
 Rec == ndJsonDeserialize(IOEnv.TRACE)
 VARIABLES l, ref, phase, n
 vars == <<l, ref, phase, n>>
 Init == l = 1 /\ ref = [k \in {} |-> ""] /\ phase = "idle" /\ n = 0
 IsEvent(e) == l <= Len(Rec) /\ Rec[l].e = e /\ l' = l + 1
+Key(ev) == <<ev.fn, ev.x>>
 Reset == IsEvent("Reset") /\ phase = "idle" /\ phase' = "seq" /\ ref' = [k \in {} |-> ""] /\ n' = 0
+FreshEv == /\ IsEvent("Fresh") /\ phase = "seq" /\ Key(Rec[l]) \notin DOMAIN ref
+           /\ ref' = ref @@ (Key(Rec[l]) :> Rec[l].hash) /\ UNCHANGED <<phase, n>>
 SeqEv == /\ IsEvent("Seq") /\ phase \in {"seq", "conc"}
-       /\ ref' = ref @@ (<<Rec[l].fn, Rec[l].x>> :> Rec[l].hash) /\ UNCHANGED <<phase, n>>
+         /\ IF Key(Rec[l]) \in DOMAIN ref THEN ref[Key(Rec[l])] = Rec[l].hash /\ UNCHANGED ref
+            ELSE ref' = ref @@ (Key(Rec[l]) :> Rec[l].hash)
+         /\ UNCHANGED <<phase, n>>
 EndEv == /\ IsEvent("End") /\ phase \in {"seq", "conc"}
-       /\ <<Rec[l].fn, Rec[l].x>> \in DOMAIN ref
-       /\ ref[<<Rec[l].fn, Rec[l].x>>] = Rec[l].hash
-       /\ phase' = "conc" /\ n' = n + 1 /\ UNCHANGED ref
+         /\ Key(Rec[l]) \in DOMAIN ref
+         /\ ref[Key(Rec[l])] = Rec[l].hash
+         /\ phase' = "conc" /\ n' = n + 1 /\ UNCHANGED ref
 Done == IsEvent("Done") /\ phase = "conc" /\ n > 0 /\ phase' = "idle" /\ UNCHANGED <<ref, n>>
-Next == Reset \/ SeqEv \/ EndEv \/ Done
+Next == Reset \/ FreshEv \/ SeqEv \/ EndEv \/ Done
 Spec == Init /\ [][Next]_vars
 Accepted ==
   LET d == TLCGet("stats").diameter IN
